@@ -49,8 +49,8 @@ Print Assumptions C06_unique_mapping.
 
 (** … because creation is rejected when either side is already mapped (in any state). *)
 Theorem C06_duplicate_creation_rejected : forall (s : st),
-  (forall d, In d (map m_den (reg s)) -> exec s (CreateFromCoin d) = None) /\
-  (forall t, In t (map m_tok (reg s)) \/ In (DErc t) (map m_den (reg s)) -> exec s (CreateFromErc20 t) = None).
+  (forall a d, In d (map m_den (reg s)) -> exec s (CreateFromCoin a d) = None) /\
+  (forall a t, In t (map m_tok (reg s)) \/ In (DErc t) (map m_den (reg s)) -> exec s (CreateFromErc20 a t) = None).
 Proof. intro s. split; [exact (create_coin_rejected s) | exact (create_erc20_rejected s)]. Qed.
 Print Assumptions C06_duplicate_creation_rejected.
 
